@@ -202,7 +202,13 @@ var wellKnownFormat = map[string]string{"email": "email", "uuid": "uuid", "uri":
 // C19: OpenAPI constraints accept exactly what the declared validation rules accept.
 func C19(c *Ctx, r *report.Run) error {
 	r.Rule = "F-rules: every supported rule kind x field kind (12 numeric kinds, string, repeated/map of string/int32/int64) x bound values {negative, 0, 1, 10, 2^53+1 for 64-bit, non-integers for float/double}; for each field every probe value at and +-1/+-2 (integers) or +-1 ulp (floats) around every bound, kind extremes, NaN/Inf, strings of length b-1..b+1 in 1/2/4-byte runes, in/const members and non-members, pattern probes, item/pair counts 0..3 incl. duplicates; oracle: M-rules(value) (protovalidate stand-in on a dynamic message) <=> python jsonschema(M-json(value), property schema of the emitted document); required[] <=> required rule; well-known string rules <=> format names; distinct = (kind, rule, bound, outcome)"
-	specs, cases := univ.RuleSpecs(c.Thorough)
+	allSpecs, cases := univ.RuleSpecs(c.Thorough)
+	var specs []*spec.Spec
+	for _, s := range allSpecs {
+		if s.Name != "rules_bytes" { // bytes length rules are not in the property's rule list; C06 judges what is published for them
+			specs = append(specs, s)
+		}
+	}
 	r.Programs = len(specs)
 	py := NewPyBatch()
 	type pend struct {
